@@ -271,6 +271,31 @@ pub fn gen_texts(seed: u64, n: usize) -> Vec<J> {
             out.push(json!({"kind":"text","text":text,"inputs":inp}));
         }
     }
+    // directed: numbers at the boundaries of the display paths (powers of ten and runs of nines, a few ulps either side, halves),
+    // as literal, rendered, converted with to_string and format, inside containers, and as a JSON input
+    let mut nums: Vec<f64> = vec![];
+    for k in -9i32..=23 {
+        let p = 10f64.powi(k);
+        for d in -3i64..=3 { nums.push(f64::from_bits((p.to_bits() as i64 + d) as u64)); }
+        for frac in [0.5, 0.9, 0.999] { nums.push(p - frac); nums.push(p * (1.0 - 5e-16)); nums.push(p - p * 4e-16 * frac); }
+    }
+    for x in [999999999999999.5, 999999999999999.9, 99999999999999.99, 9999999999999998.0, 0.1 + 0.2, 1.0 / 3.0, 5e-324, 2.2250738585072014e-308, 1.7976931348623157e308,
+              123456789012345.6, 0.000001, 0.0000001, 1e21, 1e-7, 4503599627370496.5, 9007199254740993.0] { nums.push(x); nums.push(-x); }
+    for (j, x) in nums.iter().enumerate() {
+        let lit = format!("{:e}", x);
+        let text = match j % 4 {
+            0 => format!("x = {lit}\noutput s = to_string(x)\noutput t = format(\"{{}}\", x)\noutput x"),
+            1 => format!("output v = [{lit}, {{a: {lit}}}]\nformat(\"{{}} {{}}\", {lit}, [{lit}])"),
+            2 => format!("output f = y => y + {lit}\nto_string({lit}) + \"\""),
+            _ => format!("output r = round({lit} * 1)\noutput q = to_string(-({lit}))"),
+        };
+        out.push(json!({"kind":"text","text":text,"inputs": if j % 5 == 0 { J::String(format!("{{\"n\": {lit}}}")) } else { J::Null }}));
+    }
+    // grammar-directed whole programs (well-formed, mostly evaluating), with inputs
+    for i in 0..n / 2 {
+        let text = crate::proggen::program(&mut r);
+        out.push(json!({"kind":"text","text":text,"inputs": if i % 4 == 3 { J::Null } else { J::String(crate::proggen::INPUTS[i % 3].to_string()) }}));
+    }
     for i in 0..n {
         let text = match i % 5 {
             0 | 1 if !corp.is_empty() => {
